@@ -16,26 +16,30 @@ import (
 	"sort"
 	"strconv"
 	"strings"
+	"sync"
 	"time"
 )
 
 type Obligation struct {
-	Harness   string   // harness function name
-	Pkg       string   // package path relative to the module
-	Mode      string   // math | bits
-	Tiers     string   // "quick", "thorough" or "both"
-	Internal  bool     // uses unexported identifiers of the repo: skipped (reported) if it no longer type-checks
-	Covers    []string // reachability witnesses that must be hit (vacuity guard)
-	TimeoutMs int
-	Budget    int
-	MaxPaths  int
-	MapOrder  string
-	Solver    string
-	Desc      string
-	Bounds    string
+	Harness        string   // harness function name
+	Pkg            string   // package path relative to the module
+	Mode           string   // math | bits
+	Tiers          string   // "quick", "thorough" or "both"
+	Internal       bool     // uses unexported identifiers of the repo: skipped (reported) if it no longer type-checks
+	Covers         []string // reachability witnesses that must be hit (vacuity guard)
+	TimeoutMs      int
+	Budget         int
+	MaxPaths       int
+	MapOrder       string
+	MapOrderBudget int
+	Solver         string
+	Desc           string
+	Bounds         string
 	// Subst: callee -> contract function substitutions ("pkg.Func" -> "pkg.Contract"), each justified by another
 	// obligation of the same property that proves callee == contract on the current tree
 	Subst map[string]string
+	// Cuts: analyse the synchronisation events of every path with the SMT cut queries (C11)
+	Cuts bool
 	// AllowPanic: unrecovered panics on a path are part of normal behaviour for this harness (not reported)
 	AllowPanic bool
 }
@@ -80,6 +84,23 @@ type oblResult struct {
 	Skipped string
 	Err     string
 	Subst   []string
+	Cuts    *cutSummary
+}
+
+type cutBad struct {
+	Report *CutReport        `json:"report"`
+	Inputs map[string]string `json:"inputs"`
+}
+
+type cutSummary struct {
+	Paths         int      `json:"paths_analysed"`
+	Queries       int      `json:"cut_queries"`
+	DeadlockFree  int      `json:"paths_deadlock_free_for_all_schedules"`
+	NoEarlyReturn int      `json:"paths_no_early_return_for_all_schedules"`
+	MaxGoroutines int      `json:"max_goroutines"`
+	MaxEvents     int      `json:"max_events"`
+	Errors        int      `json:"errors"`
+	Bad           []cutBad `json:"suspect,omitempty"`
 }
 
 var harnessFileErr = regexp.MustCompile(`(/[^:\s]*zz_verif[^:\s]*\.go):\d+`)
@@ -232,6 +253,10 @@ func cmdCheck(args []string) int {
 			p.Budget = o.Budget
 		}
 		p.MapOrder = mapOrderFor(o.MapOrder)
+		p.MapOrderBudget = o.MapOrderBudget
+		if p.MapOrderBudget == 0 {
+			p.MapOrderBudget = 1
+		}
 		r.Subst = p.SetSubst(o.Subst)
 		p.NoIfConv = *noIfConv
 		p.Shadow = *shadow
@@ -247,9 +272,9 @@ func cmdCheck(args []string) int {
 		}
 		opts := RunOpts{Workers: w, Solver: o.Solver, TimeoutMs: o.TimeoutMs, MaxPaths: o.MaxPaths}
 		if opts.TimeoutMs == 0 {
-			opts.TimeoutMs = 60000
+			opts.TimeoutMs = 20000
 			if *tier == "thorough" {
-				opts.TimeoutMs = 300000
+				opts.TimeoutMs = 60000
 			}
 		}
 		if *ovTimeout > 0 {
@@ -259,8 +284,45 @@ func cmdCheck(args []string) int {
 			opts.MaxPaths = *ovMaxPaths
 		}
 		opts.LogSMT = *logsmt
+		opts.Progress = true
 		fmt.Fprintf(os.Stderr, "== %s/%s [%s] ...\n", o.Pkg, o.Harness, o.Mode)
-		res, xerr := Explore(p, fn, opts, nil)
+		var onPath func(*Exec, PathResult)
+		var cutMu sync.Mutex
+		cutAgg := &cutSummary{}
+		if o.Cuts {
+			onPath = func(ex *Exec, pr PathResult) {
+				if ex.sched == nil || len(ex.sched.events) == 0 {
+					return
+				}
+				rep, cerr := analyseCuts(ex.sched.events, ex.solver)
+				cutMu.Lock()
+				defer cutMu.Unlock()
+				cutAgg.Paths++
+				if cerr != nil {
+					cutAgg.Errors++
+					return
+				}
+				cutAgg.Queries += 2
+				if rep.Goroutines > cutAgg.MaxGoroutines {
+					cutAgg.MaxGoroutines = rep.Goroutines
+				}
+				if rep.Events > cutAgg.MaxEvents {
+					cutAgg.MaxEvents = rep.Events
+				}
+				bad := len(rep.KahnViolations) > 0 || rep.DeadlockQuery != "unsat" || (rep.EarlyReturnQuery != "unsat" && rep.EarlyReturnQuery != "not-checked")
+				if rep.DeadlockQuery == "unsat" {
+					cutAgg.DeadlockFree++
+				}
+				if rep.EarlyReturnQuery == "unsat" {
+					cutAgg.NoEarlyReturn++
+				}
+				if bad && len(cutAgg.Bad) < 5 {
+					cutAgg.Bad = append(cutAgg.Bad, cutBad{Report: rep, Inputs: ex.inputSnapshot(ex.model)})
+				}
+			}
+		}
+		res, xerr := Explore(p, fn, opts, onPath)
+		r.Cuts = cutAgg
 		if xerr != nil {
 			r.Err = xerr.Error()
 			fmt.Printf("CHECK-ERROR property=%s harness %s: %v\n", id, o.Harness, xerr)
@@ -268,7 +330,7 @@ func cmdCheck(args []string) int {
 		}
 		r.Res = res
 		r.Funcs = p.RepoFunctions(fn)
-		fmt.Fprintf(os.Stderr, "   paths=%d %v queries=%d solver=%.1fs wall=%.1fs\n", res.Paths, res.ByStatus, res.Queries, res.SolverSec, res.WallSec)
+		fmt.Fprintf(os.Stderr, "   paths=%d %v queries=%d solver=%.1fs wall=%.1fs ifconv=%d aborted=%d maxdecisions=%d steps=%d\n", res.Paths, res.ByStatus, res.Queries, res.SolverSec, res.WallSec, res.IfConv, res.IfConvAbort, res.MaxDecisions, res.Steps)
 		results = append(results, r)
 	}
 
@@ -390,6 +452,34 @@ func cmdCheck(args []string) int {
 			asserts = append(asserts, am)
 		}
 		ev["assertions"] = asserts
+		if r.Obl.Cuts && r.Cuts != nil {
+			ev["schedule_cut_analysis"] = r.Cuts
+			transitions += r.Cuts.Queries
+			totalObl += 2
+			if r.Cuts.Errors == 0 && len(r.Cuts.Bad) == 0 && r.Cuts.Paths > 0 {
+				discharged += 2
+			}
+			for _, b := range r.Cuts.Bad {
+				aid := r.Obl.Harness + ".schedule-cut"
+				rp := c.writeReplay(id, r.Obl, aid, b.Inputs)
+				confirmed := false
+				for try := 0; try < 3 && !confirmed; try++ {
+					status, _ := c.runReplay(r.Obl.Pkg, r.Obl.Harness, rp)
+					replays++
+					confirmed = status == "assert-failed" || status == "panic" || status == "timeout"
+				}
+				desc := fmt.Sprintf("deadlock query %s, early-return query %s, Kahn premises %v, %s", b.Report.DeadlockQuery, b.Report.EarlyReturnQuery, b.Report.KahnViolations, b.Report.Witness)
+				if confirmed {
+					violations++
+					lines = append(lines, fmt.Sprintf("VIOLATION property=%s replay=%s", id, rp))
+					fmt.Fprintf(os.Stderr, "   schedule analysis: %s (confirmed by native replay)\n", desc)
+				} else {
+					inconclusive++
+					notes = append(notes, "schedule analysis found a suspect cut that native replay did not confirm: "+desc)
+					fmt.Fprintf(os.Stderr, "   SUSPECT schedule analysis: %s (not confirmed natively)\n", desc)
+				}
+			}
+		}
 		// panics / budget / deadlock
 		if !r.Obl.AllowPanic {
 			for i, pi := range res.Panics {
@@ -426,6 +516,9 @@ func cmdCheck(args []string) int {
 			inconclusive += res.ByStatus["unsupported"] + res.ByStatus["inconclusive"]
 			for _, pr := range res.Problems {
 				fmt.Fprintf(os.Stderr, "   PROBLEM %s\n", pr)
+			}
+			for _, n := range res.Notes {
+				fmt.Fprintf(os.Stderr, "   NOTE %s\n", n)
 			}
 		}
 		if res.Truncated {
@@ -467,12 +560,15 @@ func cmdCheck(args []string) int {
 			"states": states, "transitions": transitions, "traces_validated_against_impl": replays,
 			"samples":     samples,
 			"obligations": totalObl, "discharged": discharged, "inconclusive": inconclusive,
-			"exhaustive": false,
-			"rule":        "states = feasible paths explored symbolically (each covers all inputs satisfying its path condition); transitions = SMT queries; traces_validated = native replays of solver models",
+			"exhaustive":        false,
+			"rule":              "states = feasible paths explored symbolically (each covers all inputs satisfying its path condition); transitions = SMT queries; traces_validated = native replays of solver models",
 			"functions_encoded": fl, "solver_s": solverSec, "solver": "z3-new (Z3 5.1.0) via one persistent process per worker",
 			"per_obligation": oblEvidence, "outside_bounds": spec.Outside,
 			"skipped_harness_files": c.skippedFiles, "notes": notes, "native_checks": native,
 			"encoding": "regenerated from /repo working tree on this run (go/packages + go/ssa with overlay harnesses)",
+		}
+		if spec.Assumptions == nil {
+			spec.Assumptions = []string{}
 		}
 		evd := map[string]any{
 			"property_id": id, "tier": *tier, "seed": seed, "level": "model_checking",
@@ -579,7 +675,7 @@ func nativeReplay(repo, hdir, work, pkg, harness, replayPath string) (string, st
 		if strings.HasPrefix(l, "VERIF-REPLAY ") {
 			f := strings.Fields(l)
 			if len(f) >= 2 {
-				return f[1], l + "\n" + grepLines(outs, "VERIF-REPLAY-PANIC")
+				return f[1], l + "\n" + grepLines(outs, "VERIF-REPLAY-PANIC") + "\n" + grepLines(outs, "VERIF-EMIT")
 			}
 		}
 	}
